@@ -98,11 +98,22 @@ pub fn catalogue(tier: Tier) -> Vec<(Spec, u32)> {
 }
 
 pub fn run(tier: Tier) -> ! {
-    let rep = std::sync::Arc::new(Reporter::new("C06", "taskmc", tier, "exploration"));
+    run_prop("C06", tier, None)
+}
+
+/// The catalogue (or the programs of it whose names are listed) under the name of a property.
+/// C04, C05 and C10 have a client half: the programs about events, channels and bus listeners run
+/// under their id before busmc's broker half (see `check`); without a violation this half writes
+/// only a hand-over file and leaves the evidence to the broker half.
+pub fn run_prop(prop: &'static str, tier: Tier, only: Option<&[&str]>) -> ! {
+    let rep = std::sync::Arc::new(Reporter::new(prop, "taskmc", tier, if prop == "C06" { "exploration" } else { "model_checking" }));
     // an execution that never returns (endless loop inside one poll of the subject) becomes a verdict
     let wd = mcx::watchdog::ExecWatchdog::start(rep.clone(), "any-program/poll-never-returns", Duration::from_secs(30));
     let samples = Samples::new(6);
     let mut cat = catalogue(tier);
+    if let Some(names) = only {
+        cat.retain(|(s, _)| names.contains(&s.name.as_str()));
+    }
     // developer aids: TASKMC_ONLY=<substring of name+params>, TASKMC_BOUND=<n>
     if let Ok(only) = std::env::var("TASKMC_ONLY") {
         cat.retain(|(s, _)| format!("{} {}", s.name, s.params).contains(&only));
@@ -169,7 +180,26 @@ pub fn run(tier: Tier) -> ! {
     if diverged > 0 && !rep.has_violation() {
         mcx::machinery(format!("{diverged} replayed schedule prefixes diverged (uncontrolled nondeterminism) and no violation was found"));
     }
+    if prop != "C06" {
+        let root = mcx::report::verif_root();
+        let _ = std::fs::create_dir_all(root.join(".work"));
+        let _ = std::fs::write(
+            root.join(".work").join(format!("{}-client.json", prop.to_lowercase())),
+            serde_json::to_string(&json!({"programs": only, "program_instances": n, "executions": executions.load(Ordering::Relaxed), "distinct_schedules": distinct,
+                "deviation_bound": cat.iter().map(|c| c.1).max(), "violations": rep.violation_count()}))
+            .unwrap(),
+        );
+        if !rep.has_violation() {
+            wd.stop();
+            std::process::exit(0);
+        }
+    }
     let mut cov = coverage();
+    if prop != "C06" {
+        cov.insert("states".into(), json!(distinct));
+        cov.insert("transitions".into(), json!(executions.load(Ordering::Relaxed)));
+        cov.insert("traces_validated_against_impl".into(), json!(executions.load(Ordering::Relaxed)));
+    }
     cov.insert("replays_diverged".into(), json!(diverged));
     cov.insert("evaluations".into(), json!(executions.load(Ordering::Relaxed)));
     cov.insert("distinct_nontrivial".into(), json!(distinct));
